@@ -298,6 +298,24 @@ pub fn present(out: &mut Out, rng: &mut Rng, count: usize) {
 /// exactly or the call is rejected - never silently widened
 pub fn widths(out: &mut Out, rng: &mut Rng, count: usize) {
     let mut n = 0usize;
+    // payloads larger than any internal transfer size (64 KiB and more), at the root / under unknown-size masters (handed over at
+    // once) and under a known-size master, into a destination that takes a few KiB per write: the same bytes arrive
+    {
+        let s = gen::s3(); dynspec::install(s.clone());
+        for (len, inner) in [(65536usize, 0u8), (70001, 1), (66000, 2)] {
+            let g = DynTag { id: 0xec, v: DynVal::B((0..len).map(|i| (i * 31 + 7) as u8).collect()) };
+            let ops: Vec<WOp> = match inner {
+                0 => vec![t(g.clone()), WOp::Flush],
+                1 => vec![WOp::Tag { tag: start(0x81), width: 0, unknown: true }, t(g.clone()), t(end(0x81)), WOp::Flush],
+                _ => vec![t(start(0x81)), t(g.clone()), t(end(0x81)), WOp::Flush],
+            };
+            begin(out, &mut n, &s, "present", json!({}));
+            run_writer(out, "whole", &ops, vec![]);
+            run_writer(out, "pieces", &ops, (0..200).map(|_| SinkStep::Take(1 + rng.below(4096))).collect());
+            run_writer(out, "pieces_int", &ops, (0..400).map(|k| if k % 3 == 1 { SinkStep::Interrupted } else { SinkStep::Take(1 + rng.below(2000)) }).collect());
+            out.ev(json!({"ev":"end"}));
+        }
+    }
     for i in 0..count {
         let s = pick_schema(rng, i);
         let cands: Vec<&dynspec::Entry> = s.entries.iter().filter(|e| matches!(e.ty, TagDataType::Binary | TagDataType::Utf8)
@@ -565,6 +583,30 @@ pub fn fix(out: &mut Out, rng: &mut Rng, count: usize) {
         let mut doc = gen::rand_doc(rng, &s, &o);
         gen::clear_unknown(&mut doc);
         if i % 2 == 0 { let flat = gen::flat_index(&doc); let want: Vec<bool> = (0..flat.len()).map(|_| rng.chance(1, 2)).collect(); gen::assign_unknown(&mut doc, &s, &want); }
+        // every fifth case: one element copied to a place where it may not belong (another master, or the root): whatever the strict
+        // reader still accepts, the writer must accept as well
+        if i % 5 == 4 {
+            let flat = gen::flat_index(&doc);
+            let leaves: Vec<Vec<usize>> = flat.iter().filter(|f| !f.is_master).map(|f| f.path.clone()).collect();
+            let masters: Vec<Vec<usize>> = flat.iter().filter(|f| f.is_master).map(|f| f.path.clone()).collect();
+            // preferred: an element whose path has a placeholder with a maximum, put deeper than that maximum allows
+            let bounded: Vec<(&dynspec::Entry, u64)> = s.entries.iter().filter(|e| e.ty != TagDataType::Master)
+                .filter_map(|e| e.path.iter().filter_map(|p| match p { ebml_iterable::specs::PathPart::Global((_, Some(mx))) => Some(*mx), _ => None }).max().map(|mx| (e, mx))).collect();
+            let mut done = false;
+            if !bounded.is_empty() && rng.chance(3, 4) {
+                let (e, mx) = *rng.pick(&bounded[..]);
+                let deep: Vec<Vec<usize>> = masters.iter().filter(|m| m.len() as u64 > mx).cloned().collect();
+                if !deep.is_empty() {
+                    let m: Vec<usize> = rng.pick(&deep[..]).clone();
+                    let leaf = Node::leaf(e.id, gen::rand_val(rng, e.ty, false, false).0);
+                    gen::node_mut(&mut doc, &m).kids.push(leaf); done = true;
+                }
+            }
+            if !done && !leaves.is_empty() {
+                let lp: Vec<usize> = rng.pick(&leaves[..]).clone(); let leaf = gen::node_mut(&mut doc, &lp).clone();
+                if !masters.is_empty() && rng.chance(4, 5) { let m: Vec<usize> = rng.pick(&masters[..]).clone(); gen::node_mut(&mut doc, &m).kids.push(leaf); } else { doc.push(leaf); }
+            }
+        }
         let mut bytes = gen::encode_doc(&doc);
         if i % 4 == 3 { crate::drv_reader::mutate(rng, &mut bytes); }
         if bytes.len() > 4000 { continue; }
